@@ -3,14 +3,17 @@ import contracts.all  # noqa
 import contracts.storage as ST
 import contracts.chunk as CH
 import contracts.standins_copy as B
+import contracts.standins_storage as BS
 
-PROVED = [ST.read_and_format, ST.save_from, ST.saver_save, CH.chunk_split]
+PROVED = [ST.read_and_format, ST.read_format_split, ST.save_from, ST.saver_save, CH.chunk_split]
 
 PROPERTY = Property(
     "C16", "proof",
     contracts=PROVED,
     standins=[StandIn("copy / rechunker / rechunk on load / per-chunk merge preserve the rows (real code)", B.copy_preserves, B.copy_preserves.harness,
-                      budget={"quick": 100, "thorough": 1200})],
+                      budget={"quick": 100, "thorough": 1200}),
+              StandIn("multi-megabyte chunk through every codec", BS.big_round_trip, BS.big_round_trip.harness,
+                      budget={"quick": 4, "thorough": 8})],
     trusted=["pyvc VC generator and value model", "z3 5.1.0 / cvc5 1.4.0"],
     assumptions=["copy_to_frontend, merge_per_chunk_storage, the stand-alone rechunker (mailboxes, thread / process pools), "
                  "_read_format_split_chunk (rechunk on load via Rechunker.get_splits), the Rechunker and the codecs are NOT proved: "
